@@ -163,7 +163,8 @@ Finish ==
   /\ t <= Len(Hists)
   /\ (l > Len(Hists[t].ev) \/ verdict.fail # "")
   /\ PrintT(<<"VERDICT", Hists[t].id, verdict.fail, verdict.known, l - 1>>)
-  /\ (verdict.fail = "" \/ ~ExplainOn \/ PrintT(<<"EXPLAIN", Hists[t].id, l - 1, Explain(Hists[t].ev[l - 1], store)>>))
+  /\ IF verdict.fail # "" /\ ExplainOn
+     THEN PrintT(<<"EXPLAIN", Hists[t].id, l - 1, Explain(Hists[t].ev[l - 1], store)>>) ELSE TRUE
   /\ TLCSet(1, t)
   /\ t' = t + 1 /\ l' = 1 /\ store' = Empty /\ verdict' = NoVerdict
 
